@@ -419,9 +419,11 @@ class Enumerated(Type):
     def decode_of(self, element):
         value = element.tag
 
-        try:
+        if value in self.value_to_data:
             return self.value_to_data[value]
-        except KeyError:
+        elif self.has_extension_marker:
+            return None
+        else:
             raise DecodeError(
                 "Expected enumeration value {}, but got '{}'.".format(
                     self.format_values(), value))
@@ -525,9 +527,11 @@ class Choice(Type):
     def decode_of(self, element):
         name = element.tag
 
-        try:
+        if name in self.name_to_member:
             member = self.name_to_member[name]
-        except KeyError:
+        elif self.has_extension_marker:
+            return (None, None)
+        else:
             raise DecodeError(
                 "Expected choice {}, but got '{}'.".format(
                     self.format_names(), name))
